@@ -181,6 +181,13 @@ _cast_re = re.compile(r'^(.*) as (.*) \(([A-Za-z]+(?:\(.*\))?)\)$', re.S)
 
 def parse_rvalue(s):
     s = s.strip()
+    if s.startswith('no_retag copy '):
+        # `_b = no_retag copy <place of a Box>` (then `(_b.0).0 as *const T`): the box pointer is read to reach its pointee;
+        # the copy aliases the place, so that `**b = v` / `&mut **b` land in the tree
+        try:
+            return ('boxptr', parse_place(s[14:]))
+        except ValueError:
+            pass
     if s.startswith('no_retag '):
         s = s[9:]
     try:
